@@ -1,7 +1,7 @@
 (* mx_stall: the extracted Stall model (compaction selector + wake-up protocol) as a filter.
    One command per line:
      S OPTS | ONGOING | LEVELS      selector on a tree (same text the harness `c20 sel` reads)
-        -> "<stall> <mand> <choice> | risk=<b> wf=<b> valid=<shape slice rest range closed ids|->"
+        -> "<stall> <mand> <choice> | risk=<b> wf=<b> valid=<shape slice rest range closed ids|-> known=<b> safe=<b>"
            choice = none | lower upper first last size id,id,.. | PANIC | FUEL
      T                              the float tables -> "CURVE .." / "FACTOR .." (numerators over 2^52)
      trace commands (a session; state = options, version, ongoing):
@@ -97,8 +97,8 @@ let sel (rest : string) : string =
     let r = next_compaction o v og in
     let (s, risk) = show_choice r in
     let valid = match r with Ok { nc_choice = Some c; _ } -> valid_bits v c.cc | _ -> "-" in
-    Printf.sprintf "%s %s %s | risk=%s wf=%s valid=%s" (b (should_stall_ingest o v)) (b (should_mandatory o v)) s
-      (b risk) (b (sel_wfb v)) valid
+    Printf.sprintf "%s %s %s | risk=%s wf=%s valid=%s known=%s safe=%s" (b (should_stall_ingest o v)) (b (should_mandatory o v)) s
+      (b risk) (b (sel_wfb v)) valid (b (known_stall o v)) (b (options_safe o v))
   | _ -> failwith "bad S line"
 
 (* ---- trace sessions ---- *)
@@ -189,8 +189,8 @@ let () =
             | 'E' -> event rest
             | 'Q' ->
               let (s, _) = show_choice (next_compaction !st_o !st_v !st_og) in
-              Printf.sprintf "Q stall=%s ongoing=%d next=%s wf=%s tree=%s" (b (should_stall_ingest !st_o !st_v))
-                (List.length !st_og) s (b (sel_wfb !st_v)) (show_version !st_v)
+              Printf.sprintf "Q stall=%s ongoing=%d next=%s wf=%s known=%s tree=%s" (b (should_stall_ingest !st_o !st_v))
+                (List.length !st_og) s (b (sel_wfb !st_v)) (b (known_stall !st_o !st_v)) (show_version !st_v)
             | _ -> "BAD " ^ line
           with Failure m -> "ERR " ^ m | Not_found -> "ERR notfound" | Invalid_argument m -> "ERR " ^ m
         in
